@@ -36,6 +36,8 @@ func main() {
 		hostileCmd(out, *seed, *tier)
 	case "gossip":
 		gossipCmd(out, *seed, *tier)
+	case "hyperb":
+		hyperbCmd(out, *seed, *tier)
 	default:
 		fmt.Fprintln(os.Stderr, "unknown command", cmd)
 		os.Exit(2)
